@@ -206,6 +206,47 @@ pub fn run(ctx: &mut Ctx) {
             let swapped = (case + oi as u64) % 5 == 0;
             let mut s = Snap::empty();
             s.c = if swapped { vec![u.clone(), t.clone(), w.clone()] } else { vec![t.clone(), u.clone(), w.clone()] };
+            if *op == "CODE.SUBST" && !swapped {
+                // CODE.SUBST roles: top = target, second = substitute, third = pattern. A random
+                // pattern hardly ever occurs in the target, so the roles are chosen on purpose:
+                match r.below(8) {
+                    0 | 1 | 2 | 3 => {
+                        // the pattern is a point of the target (or a near miss of one)
+                        s.c = vec![t.clone(), w.clone(), u.clone()];
+                    }
+                    4 | 5 => {
+                        // self-similar target: P is a list containing S, and the target contains
+                        // L = P with that S replaced by P, so that L[P := S] == P. The documented
+                        // single depth-first pass replaces the inner P only.
+                        let sub = w.clone();
+                        let mut pv: Vec<SItem> = (0..r.below(3)).map(|_| tree(&mut r, 1, &names)).collect();
+                        let at = r.below(pv.len() + 1);
+                        pv.insert(at, sub.clone());
+                        let pat = SItem::List(pv.clone());
+                        let mut lv = pv.clone();
+                        lv[at] = pat.clone();
+                        let l = SItem::List(lv);
+                        let mut target = t.clone();
+                        if r.bool() {
+                            let mut k = r.below(target.points());
+                            if k == 0 {
+                                target = SItem::List(vec![l.clone(), t.clone()]);
+                            } else {
+                                target.replace_point(&mut k, &l);
+                            }
+                        } else {
+                            target = SItem::List(vec![l.clone(), SItem::List(vec![l.clone()]), tree(&mut r, 2, &names)]);
+                        }
+                        s.c = vec![target, sub, pat];
+                    }
+                    6 => {
+                        // the substitute contains the pattern: no second pass over the replacement
+                        let sub = SItem::List(vec![w.clone(), u.clone(), SItem::List(vec![u.clone()])]);
+                        s.c = vec![t.clone(), sub, u.clone()];
+                    }
+                    _ => {}
+                }
+            }
             if case % 3 == 0 {
                 s.c.push(tree(&mut r, 4, &names));
             }
